@@ -23,18 +23,18 @@ func CompileToGetCodeSet(ctx *RuntimeContext, typeptr uintptr) (*OpcodeSet, erro
 	}
 	index := (typeptr - typeAddr.BaseTypeAddr) >> typeAddr.AddrShift
 	setsMu.RLock()
-	if codeSet := cachedOpcodeSets[index]; codeSet != nil {
+	codeSet := cachedOpcodeSets[index]
+	setsMu.RUnlock()
+	if codeSet != nil {
 		verifSlot(true, index, typeptr, codeSet)
+		// the filter may encode the field query itself, which takes setsMu again
 		filtered, err := getFilteredCodeSetIfNeeded(ctx, codeSet)
 		if err != nil {
-			setsMu.RUnlock()
 			return nil, err
 		}
-		setsMu.RUnlock()
 		verifProgram(typeptr, filtered)
 		return filtered, nil
 	}
-	setsMu.RUnlock()
 
 	codeSet, err := newCompiler().compile(typeptr)
 	if err != nil {
